@@ -1063,7 +1063,7 @@ static gd_entry_t *_GD_ParseBit(DIRFILE *restrict D, int is_signed,
   else if (E->scalar[0] == NULL && E->EN(bit,bitnum) < 0)
     _GD_SetError(D, GD_E_FORMAT, GD_E_FORMAT_BITNUM, p->file, p->line, NULL);
   else if ((E->flags & GD_EN_CALC) &&
-      E->EN(bit,bitnum) + E->EN(bit,numbits) - 1 > 63)
+      E->EN(bit,bitnum) > 64 - E->EN(bit,numbits)) /* no signed overflow */
   {
     _GD_SetError(D, GD_E_FORMAT, GD_E_FORMAT_BITSIZE, p->file, p->line, NULL);
   }
